@@ -1,5 +1,5 @@
 SPECIFICATION TraceSpec
-CONSTANT P = 31723
+CONSTANT P = 7
 POSTCONDITION TraceAccepted
-INVARIANT PendingClosed
+INVARIANT TraceInv
 CHECK_DEADLOCK FALSE
